@@ -86,7 +86,10 @@ def run_one(ctx, case):
         r = transpile_and_compare(ctx, er, d, sentinel=False)
         r["skel"] = "file:" + os.path.basename(case["file"])
     else:
-        tree = frag.generate(random.Random(case["seed"]), frag.Opts(**case.get("opts", {})))
+        # (Bool `&& || ^^` give an int in the transpiled script's runtime, and a multi-statement if! nested in a loop or
+        # subroutine is hoisted into a module-level helper that cannot see the enclosing locals: listed findings, see
+        # KNOWN_CASES; the generated programs therefore nest blocks one level deep)
+        tree = frag.generate(random.Random(case["seed"]), frag.Opts(**dict({"bitops": False, "max_depth": 1}, **case.get("opts", {}))))
         er, _ = fragrun.write_case(d, "p", tree)
         r = transpile_and_compare(ctx, er, d)
         r["skel"] = common.sha(frag.skeleton(tree))
@@ -116,6 +119,8 @@ def record(rep, r):
 
 KNOWN_CASES = [
     ("known:assert-last-in-block", 'c = True\nif! c:\n    do!:\n        print!("a")\n        assert(1 < 2)\n    do!:\n        print!("b")\n'),
+    ("known:bool-bitop-result-is-int", 'print!((True || False), (True ^^ True), (True && True))\n'),
+    ("known:multi-statement-if-in-loop-loses-locals", 'for! 0..<2, i =>\n    c = i > 0\n    if! c:\n        do!:\n            print!("a", i)\n            print!("b", i)\n        do!:\n            print!("c", i)\n            print!("d", i)\n'),
     ("known:for-last-in-block", 'c = True\nif! c:\n    do!:\n        print!("a")\n        for! 0..<2, i =>\n            print!(i)\n    do!:\n        print!("b")\n'),
 ]
 
